@@ -22,8 +22,11 @@ A = peval.A
 def integer_kinds():
     k = {
         "numeral+": (A("IntegerTerm", "Numeral", **{"0": ("int", 5)}), "leaf", None),
+        "numeral+1": (A("IntegerTerm", "Numeral", **{"0": ("int", 1)}), "leaf", None),      # the smallest positive numeral: a range pattern `2..` would miss it
+        "numeral+big": (A("IntegerTerm", "Numeral", **{"0": ("int", 9223372036854775807)}), "leaf", None),
         "numeral0": (A("IntegerTerm", "Numeral", **{"0": ("int", 0)}), "leaf", None),
         "numeral-": (A("IntegerTerm", "Numeral", **{"0": ("int", -5)}), "leaf", None),
+        "numeral-1": (A("IntegerTerm", "Numeral", **{"0": ("int", -1)}), "leaf", None),
         "variable": (A("IntegerTerm", "Variable"), "leaf", None),
         "constant": (A("IntegerTerm", "FunctionConstant"), "leaf", None),
         "negative": (A("IntegerTerm", "UnaryOperation", op=A("UnaryOperator", "Negative")), "prefix", "negative"),
@@ -55,7 +58,7 @@ def formula_leaf_hazard(pk, ck, pos):
 
 
 def int_leaf_hazard(pk, ck, pos):
-    return pk == "negative" and ck == "numeral+"
+    return pk == "negative" and ck.startswith("numeral+")
 
 
 def rule_tokens(ctx):
